@@ -782,8 +782,13 @@ def _latent_dag(
     rv.add_nodes_from(itt.chain.from_iterable(bi_edges_list))
     rv.add_edges_from(di_edges)
     nx.set_node_attributes(rv, False, tag)
-    for i, (u, v) in enumerate(sorted(bi_edges_list), start=start):
+    taken = {node.name for node in rv.nodes()}
+    i = start
+    for u, v in sorted(bi_edges_list):
+        while f"{prefix}{i}" in taken:  # an observed node may already carry a name like u_0
+            i += 1
         latent_node = Variable(f"{prefix}{i}")
+        i += 1
         rv.add_node(latent_node, **{tag: True})
         rv.add_edge(latent_node, u)
         rv.add_edge(latent_node, v)
